@@ -30,6 +30,28 @@ def _no_col(e):
     return not any(x[0] == "col" for x in walk_expr(e))
 
 
+def _frame_level_aggregate(e):
+    """Every column reference of the expression sits below an aggregate without partition_by."""
+    from .ir import AGG_OPS
+
+    def ok(nd):
+        if nd[0] == "col":
+            return False
+        if nd[0] == "lit":
+            return True
+        if nd[0] == "fn":
+            if nd[1] in AGG_OPS and not (len(nd) > 3 and nd[3].get("partition_by")):
+                return True
+            return all(ok(a) for a in nd[2]) and not (len(nd) > 3 and nd[3])
+        if nd[0] == "cast":
+            return ok(nd[1])
+        if nd[0] == "case":
+            return all(ok(c) and ok(v) for c, v in nd[1]) and (nd[2] is None or ok(nd[2]))
+        return False
+
+    return ok(e) and not _no_col(e)
+
+
 def _scalar_shapes(case):
     """Shapes that make Polars 1.44 produce a length-1 series where a column is expected
     (engine bugs, DESIGN §4.15): literal-only subexpressions that the engine keeps as scalars -
@@ -45,6 +67,8 @@ def _scalar_shapes(case):
         if s["verb"] in ("mutate", "summarize"):
             if any(_no_col(e) for _, e in s["items"]):
                 return True
+        if s["verb"] == "mutate" and any(_frame_level_aggregate(e) for _, e in s["items"]):
+            return True  # one value for the whole frame: Polars keeps such a column as a scalar, too
         for e in (s["exprs"] if s["verb"] == "expr" else step_exprs(s)):
             for nd in walk_expr(e):
                 if nd[0] == "case":
@@ -78,6 +102,12 @@ def engine_quirk(ex, case, ref=None):
     if exc_name(ex) == "InvalidOperationError" and "conversion from" in msg and "failed" in msg and any(
             d not in ("int64", "float64", "bool", "str", "date", "datetime") for t in case["tables"] for _, d in t["cols"]):
         return "sized_int_overflow"  # out of domain (DESIGN §4.1 / §4.11): value does not fit a sized column type
+    if exc_name(ex) == "OperationalError" and ("string_agg" in msg or 'near "ORDER": syntax error' in msg):
+        from .ir import has_op, step_exprs
+
+        if any(has_op(e, {"str.join"}) for s in case.get("steps", []) for e in step_exprs(s)):
+            # the SQLite library of this sandbox predates string_agg / ORDER BY inside aggregates (3.44)
+            return "sqlite_without_string_agg"
     if exc_name(ex) == "InvalidOperationError" and "joining with repeated key names" in msg:
         return "polars_repeated_join_key"  # Polars limitation on join keys (join docstring note)
     return None
